@@ -23,6 +23,7 @@ from .core import AnchorError, Unsupported
 from .e1_srcmodel import dotted, walk_no_nested, parent, ancestors
 from . import c13_sem as M
 from . import c13_len
+from . import c13_ncol
 from .c13_sem import Lin, S, lin, show
 
 BULK = "pyyeti/nastran/bulk.py"
@@ -2011,6 +2012,8 @@ def _dmig(ctx):
         v.unknown({"matrix types seen": sorted(kinds)})
     v.report(ctx, "wtdmig: double-precision types (even mtype) use the D exponent", wd)
     _dmig_layout(ctx, E, Er, terms, prim, wd, rd)
+    # form 9: the NCOL header field the writer fills vs the columns the (expanded) reader allocates from it, on a finite world of column label sets
+    c13_ncol.check(ctx, V, E, Er, prim, is_write, wd, rd)
 
 
 def _card_column(text, name8, c0, c1):
@@ -3526,7 +3529,7 @@ def _has_thru(v):
 RULES = [
     ("C13-R1", r1_templates, 34),
     ("C13-R2", r2_nonempty_vector, 4),     # + 1: the row count on the finite world of argument lengths (when it can be evaluated)
-    ("C13-R3", r3_reader_strides, 13),   # + 1 when the matrix type is set under a test of np.iscomplexobj
+    ("C13-R3", r3_reader_strides, 14),   # + 1 when the matrix type is set under a test of np.iscomplexobj; incl. the form-9 NCOL agreement (c13_ncol)
     ("C13-R4", r4_sequence_coverage, 9),
 ]
 LEVEL = "other"
@@ -3536,7 +3539,7 @@ EXPLANATION = ("Static: every hard-wired or default floating-point format in the
                "own summary); typed readers index the fields the writers fill (TABLED1 pairs, GRID columns and the card order of the vectors wtgrids "
                "passes, the fields of a DMIG column card - one term per continuation line, row grid / dof / real / imaginary part where rddmig takes "
                "them, keys formed like the index they are searched in, and searched in an index built from the collection keys of that kind were put into); the DMIG half-storage test matches the reader's mirror, no non-zero term is "
-               "skipped, the matrix type is complex exactly when the data is, and the reader stores entries at (row position, column position); the head a caller of wtnasints writes fills the fields before "
+               "skipped, the matrix type is complex exactly when the data is, and the reader stores entries at (row position, column position); for form 9 the value wtdmig puts into the NCOL header field and the column index rddmig builds from it are evaluated on a finite world of column label sets (every label written is a member of that index, inside the allocated columns); the head a caller of wtnasints writes fills the fields before "
                "`start`; list writers (wtnasints, and the THRU loops reached from wtset, wtspoints, wtxset1) "
                "emit every element exactly once and give every template as many values as it has fields.  All rules are bound to the public entry "
                "points and follow calls (helpers, nested functions, generators, partial / lambda callbacks); they are decided on symbolic values "
@@ -3546,7 +3549,7 @@ MANIFEST = {
     "text": "Partial claim decided statically: (R1) width of every floating-point spec over the whole double range, card-grid arithmetic of wttabled1/wtgrids "
             "templates, leftover-pair range, last-line head, ENDT; (R2) non-empty-vector contract of writer.vecwrite at its call sites, and (when vecwrite buffers its lines) the buffer written only as far as it was filled; (R3) reader strides vs "
             "writer layout (TABLED1, GRID incl. the card order of the vectors, DMIG column cards field by field, keys searched where they were collected), DMIG symmetry test vs reader mirror, entry "
-            "orientation, rows written per column, non-zero terms never skipped, type 3/4 iff complex data, D exponent; (R4) wtnasints line wrapping (field "
+            "orientation, rows written per column, non-zero terms never skipped, type 3/4 iff complex data, D exponent, form-9 NCOL header field vs the columns the expanded reader allocates from it; (R4) wtnasints line wrapping (field "
             "count = value count, capacity, consecutive slices), the head written by its callers (wtcsuper, wtextrn, ...) fills the fields before `start`, and the THRU cursor of wtset / wtspoints / wtxset1 (through whatever helper holds the loop). Known findings (default/hard-wired formats narrower "
             "than the value domain) are listed in known_findings.json. Not decided: run detection of _find_sequence on data, text wrapping of SET lines, "
             "DMIG index ordering on data, precision of values, uset2bulk/bulk2uset coordinate chains.",
